@@ -98,3 +98,28 @@ func Lex(src string) []token.Token {
 		}
 	}
 }
+
+// Format runs the real FormatText with a font table built from parallel
+// slices (the engine passes symbolic widths).
+func Format(text string, keys []string, widths []int, maxWidth, overlap, numLines int, fontID string, fontPresent bool) (string, error) {
+	fc := parser.FontConfig{DefaultFontID: fontID, Fonts: map[string]parser.Fonts{}}
+	if fontPresent {
+		w := map[string]int{}
+		for i, k := range keys {
+			w[k] = widths[i]
+		}
+		fc.Fonts[fontID] = parser.Fonts{Widths: w}
+	}
+	return fc.FormatText(text, maxWidth, overlap, fontID, numLines)
+}
+
+// CompileFormat compiles src with a two-font config whose numeric fields are
+// given (the engine passes symbolic integers) and the CLI-level defaults.
+func CompileFormat(src string, cliFont string, cliMaxLen int, f1 [3]int, f2 [3]int) (string, error) {
+	StubFont = parser.FontConfig{DefaultFontID: "font1", Fonts: map[string]parser.Fonts{
+		"font1": {MaxLineLength: f1[0], NumLines: f1[1], CursorOverlapWidth: f1[2], Widths: map[string]int{"a": 1, " ": 1}},
+		"font2": {MaxLineLength: f2[0], NumLines: f2[1], CursorOverlapWidth: f2[2], Widths: map[string]int{"a": 2, " ": 1}},
+	}}
+	StubFontErr = nil
+	return Compile(src, Options{FontPath: "stub", FontID: cliFont, MaxLen: cliMaxLen})
+}
